@@ -208,10 +208,21 @@ def _sym_unit(vals):
     return S / n
 
 
+def _exercise_helpers(R, t, s):
+    """a short history of helper calls on genuine elements: none of them may change what a later call returns"""
+    lie.se3_inverse(lie.se3(R, t))
+    lie.sim3_inverse(lie.sim3(R, t, s))
+    lie.relative_se3(lie.se3(R, t), lie.se3(R.T, -t))
+    lie.so3_exp(lie.so3_log(R))
+    lie.sim3_scale(lie.sim3(R, t, s)) if hasattr(lie, "sim3_scale") else None
+
+
 def sub_member(case):
     R, t = _pose(case["P"])
     s = float(case["s"])
     near = case["near"]
+    if case.get("history"):
+        _exercise_helpers(R, t, s)
     kind = near["kind"]
     d = float(near["d"])
     # genuine elements first
@@ -241,9 +252,8 @@ def sub_member(case):
         T = np.eye(4)
         T[:3, :3] = s * M
         T[:3, 3] = t
-        with np.errstate(all="ignore"):
-            acc = lie.is_sim3(T)
-            acc2 = lie.is_sim3(T, s)
+        acc = lie.is_sim3(T)
+        acc2 = lie.is_sim3(T, s)
         if acc or acc2:
             raise Mismatch("reflection accepted by is_sim3", observed="accept_nearmiss", near="reflection")
         return "reflection"
@@ -320,6 +330,6 @@ SUBS = [
         nontrivial=lambda c: abs(math.log10(c["s"])) >= 2 or c["P"]["mag"] >= 1e6 or (c["s"] != 1.0 and abs(c["s"] - 1.0) <= 1e-4)),
     Sub("metric", sub_metric, st.fixed_dictionaries({"A": gen.st_rotation, "B": gen.st_rotation, "C": gen.st_rotation}), 3000, 150000,
         nontrivial=lambda c: _near_end(rm.rot_angle_between(gen.rot_matrix(c["A"]), gen.rot_matrix(c["B"])))),
-    Sub("member", sub_member, st.fixed_dictionaries({"P": st_pose, "s": st_scale, "near": st_near}), 4000, 200000,
+    Sub("member", sub_member, st.fixed_dictionaries({"P": st_pose, "s": st_scale, "near": st_near, "history": st.booleans()}), 4000, 200000,
         nontrivial=lambda c: c["near"]["kind"] != "genuine" or c["near"]["n"] >= 100),
 ]
